@@ -189,7 +189,13 @@ Inductive op :=
 | OClean (n : N)                               (* RetryClean: n ticks of the cleaner *)
 | OTakeMid (p t n : Z)                         (* Take during which node n goes down inside the
                                                   database query (after the GET, before the SET) *)
-| OQriMid (u t n : Z).                         (* QueryRowIndex, likewise (index or primary query) *)
+| OQriMid (u t n : Z)                          (* QueryRowIndex, likewise (index or primary query) *)
+| OExecDie (p : Z) (w : option (Z * Z)) (keys : list key) (n0 : Z).
+                                               (* ExecCtx whose context ends (cancelled / past its deadline)
+                                                  while the FIRST DEL of its invalidation - the one sent to
+                                                  node n0 (oracle: Go's map order picks the node) - is on the
+                                                  wire: that DEL completes, every later DEL of the same
+                                                  invalidation dies with the context *)
 
 Inductive ret :=
 | ROk
@@ -230,6 +236,31 @@ Definition nodes_of (c : config) (keys : list key) : list Z :=
 
 Definition del_keys (c : config) (keys : list key) (s : state) : state :=
   fold_left (fun s n => del_on_node c n keys s) (nodes_of c keys) s.
+
+(* ------------------------------------------------------------------ DelCtx under a dying context *)
+(* hand timers to the cleaner (asyncRetryDelCache -> AddCleanTask) *)
+Definition owe (l : list task) (s : state) : state :=
+  mkState (db s) (dbFault s) (cache s) (cfault s) (pending s ++ l) (lost s) (clock s).
+
+(* The context of a DelCtx ends while its first DEL - sent to node n0 - is on the wire.  That DEL
+   is answered (done, or refused by a node that is down: del_on_node); go-redis refuses to send
+   any further command under the dead context, so every later DEL of the invalidation fails,
+   is logged and handed to the cleaner exactly as after an outage: the other keys of node n0
+   one by one when the DELs go key by key (cluster type, cacheNode.DelCtx), the share of every
+   other node as that node's DelCtx does (del_tasks).
+   Result: (keys of the DEL that was on the wire, timers for everything else). *)
+Definition die_split (c : config) (keys : list key) (n0 : Z) : list key * list task :=
+  let ks0 := filter (fun k => node_of c k =? n0) keys in
+  let others :=
+    flat_map (fun n => if n =? n0 then []
+                       else del_tasks c (filter (fun k => node_of c k =? n) keys) n)
+             (nodes_of c keys) in
+  if ccluster c && (1 <? Z.of_nat (length ks0))
+  then (firstn 1 ks0, map (fun k => first_task [k] n0) (skipn 1 ks0) ++ others)
+  else (ks0, others).
+
+Definition die_keys (c : config) (keys : list key) (n0 : Z) (s : state) : state :=
+  owe (snd (die_split c keys n0)) (del_on_node c n0 (fst (die_split c keys n0)) s).
 
 (* ------------------------------------------------------------------ doTake on a primary key *)
 (* the miss branch of doTake: query, then SETEX / SETNX.  A failing write is only logged:
@@ -357,6 +388,27 @@ Definition exec (c : config) (s : state) (p : Z) (w : option (Z * Z)) (keys : li
       (del_keys c keys s1, mkObs ROk 0 0)
     end.
 
+(* ExecCtx whose context ends while the first DEL (node n0) is on the wire.  The oracle must name
+   a node that holds one of the keys (a DEL is sent there); a refused write sends no DEL at all,
+   the context then never ends: the plain database error. *)
+Definition exec_die (c : config) (s : state) (p : Z) (w : option (Z * Z)) (keys : list key) (n0 : Z)
+  : state * obs :=
+  if dbFault s then (s, mkObs RDbErr 0 0)
+  else if negb (existsb (Z.eqb n0) (nodes_of c keys)) then (s, mkObs RBadOracle 0 0)
+  else
+    match w with
+    | Some (u, v) =>
+      if u_taken p u (db s) then (s, mkObs RDbErr 0 0)
+      else
+        let s1 := mkState (db_put p (u, v) (db s)) (dbFault s) (cache s) (cfault s)
+                          (pending s) (lost s) (clock s) in
+        (die_keys c keys n0 s1, mkObs ROk 0 0)
+    | None =>
+      let s1 := mkState (db_del p (db s)) (dbFault s) (cache s) (cfault s)
+                        (pending s) (lost s) (clock s) in
+      (die_keys c keys n0 s1, mkObs ROk 0 0)
+    end.
+
 Definition set_primary (c : config) (s : state) (p u v : Z) (e : option Z) : state * obs :=
   if key_down c s (KP p) then (s, mkObs RCErr 0 0)
   else (set_cache s (put (KP p) (mkEntry (CRow u v) e) (cache s)), mkObs ROk 0 0).
@@ -416,6 +468,7 @@ Definition step (c : config) (s : state) (o : op) : state * obs :=
   | OClean n => (N.iter n tick s, mkObs ROk 0 0)
   | OTakeMid p t n => take_mid c s p t n
   | OQriMid u t n => query_index_mid c s u t n
+  | OExecDie p w keys n0 => exec_die c s p w keys n0
   end.
 
 Fixpoint run (c : config) (s : state) (ops : list op) : list obs :=
@@ -449,7 +502,7 @@ Definition row_eqb (a b : option (Z * Z)) : bool :=
 
 Definition disciplined (t : table) (o : op) : bool :=
   match o with
-  | OExec p w keys => covers t p w keys
+  | OExec p w keys | OExecDie p w keys _ => covers t p w keys
   | OSet p u v _ | OSetEx p u v _ => row_eqb (db_get p t) (Some (u, v))
   | _ => true
   end.
